@@ -260,6 +260,8 @@ type execRun struct {
 	nstates int
 	// statesAfterRet: reports received after the directive had returned nil
 	statesAfterRet int
+	badStates      [8]cff.SchedulerState
+	nbad           int
 	inits          [3][64]initRec // TaskInit calls per emitter (name, source line)
 	ninits         [3]int
 
@@ -842,6 +844,13 @@ func (e *recSched) note(s cff.SchedulerState) {
 	if e.k == 0 && x.nstates < len(x.states) {
 		x.states[x.nstates] = s
 		x.nstates++
+	} else if e.k == 0 && x.nbad < len(x.badStates) {
+		// beyond the recording capacity (very long runs): keep what cannot be right on its face
+		ex := s.Pending - s.Ready - s.Waiting
+		if s.Pending < 0 || s.Ready < 0 || s.Waiting < 0 || s.IdleWorkers < 0 || ex < 0 || ex > s.Concurrency || s.IdleWorkers != s.Concurrency-ex {
+			x.badStates[x.nbad] = s
+			x.nbad++
+		}
 	}
 	if e.k == 0 && x.returned && x.err == nil && x.ctxErrAtRet == nil {
 		x.statesAfterRet++
@@ -1039,7 +1048,7 @@ func Exec(t *testing.T, d *Desc, replay, keepTrace bool, states map[uint64]struc
 	if d.Prop == "C03" {
 		sim.CountEvery = 16
 	}
-	if d.Prop == "C03scale" || d.Prop == "C10scale" || d.Prop == "C10scale8" {
+	if d.Prop == "C03scale" || d.Prop == "C10scale" || d.Prop == "C10scale8" || d.Prop == "C19scale" {
 		sim.CountEvery = 1024
 	}
 	if replay {
@@ -1083,7 +1092,7 @@ func Exec(t *testing.T, d *Desc, replay, keepTrace bool, states map[uint64]struc
 		for k := range x.em {
 			x.em[k] = x.em[k][:x.nem[k]]
 		}
-		x.states = x.states[:x.nstates]
+		x.states = append(x.states[:x.nstates], x.badStates[:x.nbad]...)
 	}
 	res.Hash = sim.Hash()
 	res.Steps = sim.Steps
